@@ -25,6 +25,113 @@ def plan(tier, seed):
     return shards
 
 
+def judge_proj(txs, cnt, viols, hashes, samples):
+    """One ledger against its per-security projections. Returns the number of executions observed."""
+    p = probe()
+    tickers = sorted({t["ticker"] for t in txs})
+    reqs = [lc.calc_case(txs)] + [lc.calc_case([t for t in txs if t["ticker"] == tk]) for tk in tickers]
+    obs = p.run(reqs)
+    n_eval = len(reqs)
+    whole, parts = obs[0], dict(zip(tickers, obs[1:]))
+    if any("panic" in o for o in obs):
+        cnt["panic(routed to C15)"] += 1
+        return n_eval
+    ok_parts = all("ok" in o for o in parts.values())
+    case = {"op": "calc", "txs": txs}
+    if ("ok" in whole) != ok_parts:
+        rej = {tk: o["err"]["message"][:120] for tk, o in parts.items() if "err" in o}
+        # the only known way to get here on a correct-looking tree: a ~1e-26 decimal shortfall (F3b) whose presence
+        # depends on how same-day SELL lines were grouped (F16); anything else keeps the bare signature
+        from .c05 import residue_class
+        msgs = [whole["err"]["message"]] if "err" in whole else [o["err"]["message"] for o in parts.values() if "err" in o]
+        rcs = {residue_class(txs, m_) for m_ in msgs}
+        sfx = ""
+        if len(rcs) == 1 and next(iter(rcs)).startswith("holding-short-by-decimal-residue:") \
+                and not next(iter(rcs)).endswith(":none"):
+            sfx = ":" + next(iter(rcs))
+        viols.append({"clause": "acceptance-not-conjunction", "signature": "acceptance-not-conjunction" + sfx,
+                      "detail": f"whole accepted={'ok' in whole} ({whole.get('err', {}).get('message', '')[:120]}); "
+                                f"per-security rejections: {rej}", "case": case})
+        return n_eval
+    if "ok" not in whole:
+        cnt["all_rejected_consistently"] += 1
+        return n_eval
+    W = lc.parse_report(whole["ok"]["report"])
+    hashes.add(sha(txs)[:16])
+    # securities active on the same date
+    bydate = defaultdict(set)
+    for t in txs:
+        if t["kind"] in ("BUY", "SELL"):
+            bydate[t["date"]].add(t["ticker"])
+    if any(len(s) >= 2 for s in bydate.values()):
+        cnt["ledgers_with_same_date_collisions"] += 1
+    tot = defaultdict(lambda: defaultdict(lambda: ZERO))
+    diffs = []
+    f16 = []
+    for tk in tickers:
+        P = lc.parse_report(parts[tk]["ok"]["report"])
+        # disposals & legs of this security: exact
+        wd = {(d["date"]): d for y in W["years"] for d in y["disposals"] if d["ticker"] == tk}
+        pd_ = {(d["date"]): d for y in P["years"] for d in y["disposals"]}
+        if list(wd) != list(pd_):
+            diffs.append(f"{tk}: disposal dates whole={[str(x) for x in wd]} alone={[str(x) for x in pd_]}")
+            continue
+        f16_dates = {d_ for (t_, d_) in lc.nonconsecutive_sells(txs) if t_ == tk}
+        for k in wd:
+            a, b = wd[k], pd_[k]
+            cnt["disposals_compared"] += 1
+            la = [(l["rule"], l["acq"], l["qty"], l["cost"], l["gain"]) for l in a["legs"]]
+            lb = [(l["rule"], l["acq"], l["qty"], l["cost"], l["gain"]) for l in b["legs"]]
+            if (a["qty"], a["gross"], a["net"]) == (b["qty"], b["gross"], b["net"]) and la == lb:
+                continue
+            # not identical: compare the merged view within decimal-residue tolerance
+            one = lambda d_: {"years": [{"start_year": 0, "period": "", "disposals": [d_], "total_gain": ZERO,
+                                         "total_loss": ZERO, "net_gain": ZERO, "exempt_amount": ZERO,
+                                         "taxable_gain": ZERO, "disposal_count": 1, "dividend_income": ZERO,
+                                         "dividend_tax_paid": ZERO}], "holdings": {}}
+            md = lc.compare_reports(one(a), one(b), exact=False, leg_gains=False, year_totals=False,
+                                    dividends=False, what=("years",), label=("whole", "alone"))
+            if md:
+                diffs.append(f"{tk} {k}: " + "; ".join(md[:2]))
+            elif f16_dates:
+                f16.append(f"{tk} {k}")
+            else:
+                diffs.append(f"{tk} {k}: leg lists differ whole={[(x[0], str(x[1]), float(x[2]), float(x[3])) for x in la]} "
+                             f"alone={[(x[0], str(x[1]), float(x[2]), float(x[3])) for x in lb]}")
+        hw = W["holdings"].get(tk)
+        hp = P["holdings"].get(tk)
+        if hw != hp and not (hw and hp and lc.close(hw[0], hp[0], lc.TOL_FINE * 1000) and lc.close(hw[1], hp[1], lc.TOL_FINE * 10 ** 4, hp[1] * 1000)):
+            diffs.append(f"{tk}: holding whole={hw} alone={hp}")
+        for y in P["years"]:
+            for f in ("total_gain", "total_loss", "gross_proceeds"):
+                tot[y["start_year"]][f] += y[f]
+            tot[y["start_year"]]["count"] += y["disposal_count"]
+    for y in W["years"]:
+        t = tot.get(y["start_year"])
+        if t is None:
+            diffs.append(f"{y['period']}: in whole report only")
+            continue
+        for f in ("total_gain", "total_loss", "gross_proceeds"):
+            if not lc.close(y[f], t[f], TOL_10DP, t[f]):
+                diffs.append(f"{y['period']}: {f} whole={float(y[f])!r} sum of parts={float(t[f])!r}")
+        if y["disposal_count"] != t["count"]:
+            diffs.append(f"{y['period']}: disposal_count whole={y['disposal_count']} parts={t['count']}")
+    if set(tot) - {y["start_year"] for y in W["years"]}:
+        diffs.append(f"years only in per-security reports: {sorted(set(tot) - {y['start_year'] for y in W['years']})}")
+    if f16:
+        viols.append({"clause": "legs-follow-sell-lines",
+                      "signature": "F16:per-sell-line-legs-differ-only-with-nonconsecutive-same-day-sells",
+                      "detail": f"another security's line between two same-day SELLs regroups the legs of {f16[:3]}",
+                      "case": case})
+    if diffs:
+        viols.append({"clause": "whole-differs-from-parts", "signature": "whole-differs-from-parts",
+                      "detail": "; ".join(diffs[:4]), "case": case})
+    elif len(samples) < 2 and len(txs) <= 14 and len(tickers) >= 2:
+        samples.append({"ledger": lc.brief(txs), "securities": tickers, "result": "whole == combination of parts"})
+
+    return n_eval
+
+
 def run_proj(desc):
     rng = rng_for(PROP, desc["seed"], desc["cls"], desc["shard"])
     opts = Opts(**CLASSES[desc["cls"]])
@@ -37,97 +144,7 @@ def run_proj(desc):
     for _ in range(desc["n"]):
         txs, _f = gen_ledger(rng, opts)
         # make tickers collide on dates in several stateful mechanisms: already interleaved by date
-        tickers = sorted({t["ticker"] for t in txs})
-        reqs = [lc.calc_case(txs)] + [lc.calc_case([t for t in txs if t["ticker"] == tk]) for tk in tickers]
-        obs = p.run(reqs)
-        n_eval += len(reqs)
-        whole, parts = obs[0], dict(zip(tickers, obs[1:]))
-        if any("panic" in o for o in obs):
-            cnt["panic(routed to C15)"] += 1
-            continue
-        ok_parts = all("ok" in o for o in parts.values())
-        case = {"op": "calc", "txs": txs}
-        if ("ok" in whole) != ok_parts:
-            rej = {tk: o["err"]["message"][:120] for tk, o in parts.items() if "err" in o}
-            viols.append({"clause": "acceptance-not-conjunction", "signature": "acceptance-not-conjunction",
-                          "detail": f"whole accepted={'ok' in whole} ({whole.get('err', {}).get('message', '')[:120]}); "
-                                    f"per-security rejections: {rej}", "case": case})
-            continue
-        if "ok" not in whole:
-            cnt["all_rejected_consistently"] += 1
-            continue
-        W = lc.parse_report(whole["ok"]["report"])
-        hashes.add(sha(txs)[:16])
-        # securities active on the same date
-        bydate = defaultdict(set)
-        for t in txs:
-            if t["kind"] in ("BUY", "SELL"):
-                bydate[t["date"]].add(t["ticker"])
-        if any(len(s) >= 2 for s in bydate.values()):
-            cnt["ledgers_with_same_date_collisions"] += 1
-        tot = defaultdict(lambda: defaultdict(lambda: ZERO))
-        diffs = []
-        f16 = []
-        for tk in tickers:
-            P = lc.parse_report(parts[tk]["ok"]["report"])
-            # disposals & legs of this security: exact
-            wd = {(d["date"]): d for y in W["years"] for d in y["disposals"] if d["ticker"] == tk}
-            pd_ = {(d["date"]): d for y in P["years"] for d in y["disposals"]}
-            if list(wd) != list(pd_):
-                diffs.append(f"{tk}: disposal dates whole={[str(x) for x in wd]} alone={[str(x) for x in pd_]}")
-                continue
-            f16_dates = {d_ for (t_, d_) in lc.nonconsecutive_sells(txs) if t_ == tk}
-            for k in wd:
-                a, b = wd[k], pd_[k]
-                cnt["disposals_compared"] += 1
-                la = [(l["rule"], l["acq"], l["qty"], l["cost"], l["gain"]) for l in a["legs"]]
-                lb = [(l["rule"], l["acq"], l["qty"], l["cost"], l["gain"]) for l in b["legs"]]
-                if (a["qty"], a["gross"], a["net"]) == (b["qty"], b["gross"], b["net"]) and la == lb:
-                    continue
-                # not identical: compare the merged view within decimal-residue tolerance
-                one = lambda d_: {"years": [{"start_year": 0, "period": "", "disposals": [d_], "total_gain": ZERO,
-                                             "total_loss": ZERO, "net_gain": ZERO, "exempt_amount": ZERO,
-                                             "taxable_gain": ZERO, "disposal_count": 1, "dividend_income": ZERO,
-                                             "dividend_tax_paid": ZERO}], "holdings": {}}
-                md = lc.compare_reports(one(a), one(b), exact=False, leg_gains=False, year_totals=False,
-                                        dividends=False, what=("years",), label=("whole", "alone"))
-                if md:
-                    diffs.append(f"{tk} {k}: " + "; ".join(md[:2]))
-                elif f16_dates:
-                    f16.append(f"{tk} {k}")
-                else:
-                    diffs.append(f"{tk} {k}: leg lists differ whole={[(x[0], str(x[1]), float(x[2]), float(x[3])) for x in la]} "
-                                 f"alone={[(x[0], str(x[1]), float(x[2]), float(x[3])) for x in lb]}")
-            hw = W["holdings"].get(tk)
-            hp = P["holdings"].get(tk)
-            if hw != hp and not (hw and hp and lc.close(hw[0], hp[0], lc.TOL_FINE * 1000) and lc.close(hw[1], hp[1], lc.TOL_FINE * 10 ** 4, hp[1] * 1000)):
-                diffs.append(f"{tk}: holding whole={hw} alone={hp}")
-            for y in P["years"]:
-                for f in ("total_gain", "total_loss", "gross_proceeds"):
-                    tot[y["start_year"]][f] += y[f]
-                tot[y["start_year"]]["count"] += y["disposal_count"]
-        for y in W["years"]:
-            t = tot.get(y["start_year"])
-            if t is None:
-                diffs.append(f"{y['period']}: in whole report only")
-                continue
-            for f in ("total_gain", "total_loss", "gross_proceeds"):
-                if not lc.close(y[f], t[f], TOL_10DP, t[f]):
-                    diffs.append(f"{y['period']}: {f} whole={float(y[f])!r} sum of parts={float(t[f])!r}")
-            if y["disposal_count"] != t["count"]:
-                diffs.append(f"{y['period']}: disposal_count whole={y['disposal_count']} parts={t['count']}")
-        if set(tot) - {y["start_year"] for y in W["years"]}:
-            diffs.append(f"years only in per-security reports: {sorted(set(tot) - {y['start_year'] for y in W['years']})}")
-        if f16:
-            viols.append({"clause": "legs-follow-sell-lines",
-                          "signature": "F16:per-sell-line-legs-differ-only-with-nonconsecutive-same-day-sells",
-                          "detail": f"another security's line between two same-day SELLs regroups the legs of {f16[:3]}",
-                          "case": case})
-        if diffs:
-            viols.append({"clause": "whole-differs-from-parts", "signature": "whole-differs-from-parts",
-                          "detail": "; ".join(diffs[:4]), "case": case})
-        elif len(samples) < 2 and len(txs) <= 14 and len(tickers) >= 2:
-            samples.append({"ledger": lc.brief(txs), "securities": tickers, "result": "whole == combination of parts"})
+        n_eval += judge_proj(txs, cnt, viols, hashes, samples)
     return {"evaluations": n_eval, "nontrivial_hashes": hashes, "counters": cnt, "violations": viols[:20], "samples": samples}
 
 
@@ -218,7 +235,9 @@ def replay(case):
     txs = case["txs"]
     tickers = sorted({t["ticker"] for t in txs})
     obs = probe().run([lc.calc_case(txs)] + [lc.calc_case([t for t in txs if t["ticker"] == tk]) for tk in tickers])
-    return [], {"whole": obs[0], "parts": dict(zip(tickers, obs[1:]))}
+    viols = []
+    judge_proj(txs, Counter(), viols, set(), [])
+    return viols, {"whole": obs[0], "parts": dict(zip(tickers, obs[1:]))}
 
 
 THRESHOLDS = {"ledgers_with_same_date_collisions": 500, "disposals_compared": 5000, "case_variant_inputs_dsl": 300,
